@@ -14,7 +14,7 @@ import (
 func init() {
 	register("C09", PropCheck{
 		Title:      "The symbol cache enforces its limits and accounts for every byte",
-		Explain:    "Inductive step of the accounting invariant, decided per method of cache.Cache: (R1) no conversion to an integer type narrower than 32 bits is applied to a length that then takes part in a comparison; (R2) every success path of Add and Update passes the per-symbol limit comparison (len(value) against the limit given to Add / recorded in Sizes[key]) on its 'within limit' edge or the 'limit is 0' edge, and the capacity oracle's 'fits' edge (or the empty-value edge), and the oracle compares CacheUseSize+len(value) with CacheSize; (R3) every success path of Add passes the 'key not defined in any frame' edge of the frame lookup (directly, or as the success edge of an error-returning helper whose own success returns all lie behind it); (R4) every store to CacheUseSize is 0, or self +/- a length of a value stored to / loaded from / ranged over a frame map (or the oracle's result for such a value); every method that changes frame contents or drops frames adjusts CacheUseSize; the frame list only grows by appending a freshly made map and only shrinks by re-slicing to a shorter prefix; (R5) on every path to an error return of Add/Update each write to Cache state is followed by a restoring write (old map value / inverse adjustment with the same operand) - a rejected operation leaves the cache unchanged; (R6) Pop deletes the Sizes entry of every key of the frame it removes; (R7) the limit the LOAD handler passes to Add is the instruction's decoded size operand, and its conversion to the cache's limit type is proved lossless by a dominating range check (a declared limit must not wrap to 0 = 'no limit').",
+		Explain:    "Inductive step of the accounting invariant, decided per method of cache.Cache: (R1) no conversion to an integer type narrower than 32 bits is applied to a length that then takes part in a comparison; (R2) every success path of Add and Update passes the per-symbol limit comparison (len(value) against the limit given to Add / recorded in Sizes[key]) on its 'within limit' edge or the 'limit is 0' edge, and the capacity oracle's 'fits' edge (or the empty-value edge), and the oracle compares CacheUseSize+len(value) with CacheSize; (R3) every success path of Add passes the 'key not defined in any frame' edge of the frame lookup (directly, or as the success edge of an error-returning helper whose own success returns all lie behind it); (R4) every store to CacheUseSize is 0, or self +/- a length of a value stored to / loaded from / ranged over a frame map (or the oracle's result for such a value); every method that changes frame contents or drops frames adjusts CacheUseSize; the frame list only grows by appending a freshly made map and only shrinks by re-slicing to a shorter prefix; (R5) on every path to an error return of Add/Update each write to Cache state is followed by a restoring write (old map value / inverse adjustment with the same operand) - a rejected operation leaves the cache unchanged; (R6) Pop deletes the Sizes entry of every key of the frame it removes; (R7) at every call of Add in package vm (the LOAD handler today) the limit argument is a size operand decoded from the program, and its conversion to the cache's limit type is proved lossless by a dominating range check (a declared limit must not wrap to 0 = 'no limit', and a symbol must not be re-added with a limit taken from anywhere else).",
 		NotDecided: "the numeric invariant CacheUseSize = sum of lengths over whole histories (R4/R5 are its inductive step); lengths of 4 GiB and more (uint32 accounting); Reset leaving Sizes entries of dropped frames (reported as information only).",
 		Assume:     []string{"value lengths are below 2^32"},
 		Run:        runC09,
@@ -130,9 +130,11 @@ func runC09(w *core.World, r *core.Report) {
 
 	checkCacheAccounting(w, r, oracles, add, upd, pop, "R4", "R5", "R6")
 
-	// R7: the per-symbol limit the program declares is the limit the cache enforces
-	if h := handlerByName(w, r, "LOAD"); h != nil {
-		n := 0
+	// R7: the per-symbol limit the program declares is the limit the cache enforces - at every
+	// place in package vm that adds a symbol
+	labels7 := roleLabels(w, r)
+	n := 0
+	for _, h := range w.FuncsIn("vm") {
 		for _, c := range core.CallsTo(h, "cache.Memory.Add", "cache.(*Cache).Add") {
 			args := core.CallArgs(c)
 			lim := args[len(args)-1]
@@ -154,10 +156,15 @@ func runC09(w *core.World, r *core.Report) {
 					}
 				}
 			}
-			r.Check(okLim, "R7", "LOAD handler: declared size limit reaches the cache unchanged", c.Pos(), "operand of the instruction, conversion proved lossless", why)
+			key := "declared size limit reaches the cache unchanged"
+			if n > 1 {
+				key = fmt.Sprintf("%s #%d", key, n)
+			}
+			r.Touch(core.QName(h))
+			r.Check(okLim, "R7", label(labels7, h)+": "+key, c.Pos(), "operand of the instruction, conversion proved lossless", why)
 		}
-		r.Floor("R7", "Add calls in the LOAD handler", n, 1)
 	}
+	r.Floor("R7", "Add calls in package vm", n, 1)
 }
 
 // isDecoderCall: a call of a bytecode decoder of package vm (Parse*).
@@ -600,16 +607,17 @@ func limitEdges(fn *ssa.Function, v *ssa.Parameter, depth int) ([]core.Edge, int
 						exceedsWhenTrue := bo.Op == token.LSS || bo.Op == token.LEQ
 						cut = append(cut, core.EdgesWhere(bo, !exceedsWhenTrue)...)
 					}
-					if isLimit(bo.X) {
-						if c, ok := core.ConstInt(bo.Y); ok && c == 0 && bo.Op == token.GTR {
+					if x, op, c, ok := core.CmpConst(bo); ok && c == 0 && isLimit(x) {
+						switch op {
+						case token.GTR:
 							cut = append(cut, core.EdgesWhere(bo, false)...)
+						case token.LEQ:
+							cut = append(cut, core.EdgesWhere(bo, true)...)
 						}
 					}
 				case token.EQL, token.NEQ:
-					if isLimit(bo.X) {
-						if c, ok := core.ConstInt(bo.Y); ok && c == 0 {
-							cut = append(cut, core.EdgesWhere(bo, bo.Op == token.EQL)...)
-						}
+					if x, op, c, ok := core.CmpConst(bo); ok && c == 0 && isLimit(x) {
+						cut = append(cut, core.EdgesWhere(bo, op == token.EQL)...)
 					}
 				}
 			case *ssa.Call:
@@ -723,10 +731,10 @@ func checkCacheLimits(w *core.World, r *core.Report, oracles map[*ssa.Function]b
 			for _, v := range forwardVals(call) {
 				if refs := v.Referrers(); refs != nil {
 					for _, u := range *refs {
-						if bo, ok := u.(*ssa.BinOp); ok && (bo.Op == token.EQL || bo.Op == token.NEQ) {
-							if k, ok := core.ConstInt(bo.Y); ok && k == 0 {
+						if bo, ok := u.(*ssa.BinOp); ok {
+							if _, op, k, ok := core.CmpConst(bo); ok && k == 0 && (op == token.EQL || op == token.NEQ) {
 								ncap++
-								capCut = append(capCut, core.EdgesWhere(bo, bo.Op == token.NEQ)...)
+								capCut = append(capCut, core.EdgesWhere(bo, op == token.NEQ)...)
 							}
 						}
 					}
@@ -740,14 +748,18 @@ func checkCacheLimits(w *core.World, r *core.Report, oracles map[*ssa.Function]b
 				if !ok {
 					continue
 				}
+				x0, op0, c0, okc := core.CmpConst(bo)
+				if !okc {
+					continue
+				}
 				isLenV := false
-				for _, a := range lenArgs(bo.X, nil) {
+				for _, a := range lenArgs(x0, nil) {
 					if a == ssa.Value(valueParam) {
 						isLenV = true
 					}
 				}
-				if c, ok := core.ConstInt(bo.Y); ok && c == 0 && isLenV {
-					switch bo.Op {
+				if c0 == 0 && isLenV {
+					switch op0 {
 					case token.GTR, token.NEQ:
 						capCut = append(capCut, core.EdgesWhere(bo, false)...)
 					case token.EQL, token.LEQ:
